@@ -14,18 +14,16 @@
                      pop cache, Material.restoreBackup, StructuredGrid.restoreBackup, Parameter.restoreBackup(K)
                      (kept definitions keep their `assigned`, the others get the backed-up one).
      Assign(o,p,v)   the parameter setter (parameterDefinitions.py paramSetter): pd.assigned = coll.assigned =
-                     SINCE_ANYTHING, value stored.  For <<class,param>> in InPlace the assignment is made by a
-                     mutator that updates the stored object in place and then sets the two flags by hand
-                     (Component.setNumberDensity -> updateNumberDensities); same post-state.
-     AssignRO(o,p,v) the same call on a read-only collection: ParameterCollection.__setattr__ raises RuntimeError;
-                     NO VALUE CHANGES.  (As built, the definition-level flag pd.assigned is already set by the
-                     setter before the collection refuses; it is class-level bookkeeping, not a value, and is
-                     modelled as built.  For InPlace mutators nothing at all may change.)
+                     SINCE_ANYTHING, value stored.  Component.setNumberDensity -> updateNumberDensities updates
+                     the stored dict in place and then sets the two flags by hand: same post-state, same action.
+     AssignRO(o,p,v) the same call on a read-only collection: ParameterCollection.__setattr__ raises RuntimeError
+                     before the setter runs; NOTHING changes (no value, no flag) -- also for the in-place mutators.
      SetCache(o,w)   ArmiObject._setCache / Material._setCache.
      SetGrid(o,g)    HexGrid.changePitch / CartesianGrid.changePitch / assignment of axial bounds
                      (Assembly.reestablishBlockOrder style `grid._bounds = ...`).
      Copy(o,how)     copy.deepcopy / pickle round trip of the subtree of o: ParameterCollection.__deepcopy__
-                     (fresh serial, assigned = NEVER), __reduce__/__setstate__.
+                     (new collection through __init__(_state): fresh serial, whose assignment leaves
+                     assigned = SINCE_ANYTHING), __reduce__/__setstate__ (assigned and everything else copied).
      MakeReadOnly(r) reactorParameters.makeParametersReadOnly (r and all descendants).
      Havoc(o,T,..)   only used by trace validation: a public mutator with side effects on several parameters of
                      several objects (Component.setTemperature): whatever it does to the objects in T is accepted,
@@ -71,7 +69,6 @@ CONSTANTS N,            \* object ids 1..N : originals 1..Len(Parent0), the rest
           PickleSerial, \* "fresh" | "kept"
           Parent0, Cls0,\* the original tree: parent id (0 = root) and class per original
           ParOf,        \* class -> parameters that class has
-          InPlace,      \* <<class, param>> assigned through an in-place mutator
           GridCls, MatCls  \* classes whose objects own a grid / a material
 
 Node   == 1..N
@@ -87,14 +84,15 @@ VARIABLES parent, cls, live,
           val, rest, cass, cbak, dass, dbak,
           cache, cachebak, mcache, mcachebak, grid, gbak,
           frames, ro, serial, nextSerial,
-          err, act
+          err, act,
+          bad       \* names of the step properties the last step violated (always {} in a correct design)
 tree  == <<parent, cls, live>>
 pvars == <<val, rest, cass, cbak, dass, dbak>>
 cvars == <<cache, cachebak, mcache, mcachebak>>
 gvars == <<grid, gbak>>
 svars == <<serial, nextSerial>>
 vars  == <<tree, pvars, cvars, gvars, frames, ro, svars>>
-allvars == <<vars, err, act>>
+allvars == <<vars, err, act, bad>>
 
 (* ---------- tree helpers ---------- *)
 RECURSIVE AncSelf(_)
@@ -111,13 +109,73 @@ Zero == [p \in Par |-> 0]
 Ok(a)        == err' = "" /\ act' = a
 Refused(e,a) == err' = e /\ act' = a
 
+(* =====================  STEP PROPERTIES (stated first: every action records which ones it violated)  ===================== *)
+\* Exit: every value under the root equals the snapshot of the scope being closed, except the kept parameters,
+\* which retain their current value; caches and grids equal the snapshot; nothing outside the scope changes
+ExitRestoresStep ==
+    act'.n = "Exit" =>
+        LET F == frames[Len(frames)]
+            U == Under(F.root)
+        IN /\ \A o \in U : \A p \in Par : val'[o][p] = IF <<cls[o], p>> \in F.keep THEN val[o][p] ELSE F.sval[o][p]
+           /\ \A o \in U : rest'[o] = F.srest[o] /\ cache'[o] = F.scache[o] /\ mcache'[o] = F.smcache[o]
+           /\ \A o \in live \ U : val'[o] = val[o] /\ rest'[o] = rest[o] /\ cache'[o] = cache[o]
+                                  /\ mcache'[o] = mcache[o] /\ grid'[o] = grid[o]
+ExitRestoresGridStep ==
+    act'.n = "Exit" => LET F == frames[Len(frames)] IN \A o \in Under(F.root) : grid'[o] = F.sgrid[o]
+
+\* Enter changes no value (and empties the caches inside the scope)
+EnterKeepsValuesStep == act'.n = "Enter" => val' = val /\ rest' = rest /\ grid' = grid
+                                           /\ \A o \in Under(act'.r) : cache'[o] = 0 /\ mcache'[o] = 0
+
+\* copies: equal to the source at the moment of the copy, source untouched, copy root detached
+CopyEqualStep ==
+    act'.n \in {"DeepCopy", "Pickle"} =>
+        /\ \A i \in 1..Len(act'.ids) :
+              LET s == act'.ids[i][1]
+                  d == act'.ids[i][2]
+              IN val'[d] = val[s] /\ rest'[d] = rest[s] /\ grid'[d] = grid[s] /\ cls'[d] = cls[s] /\ ~ro'[d]
+        /\ \A o \in live : val'[o] = val[o] /\ rest'[o] = rest[o] /\ grid'[o] = grid[o] /\ cache'[o] = cache[o]
+                           /\ cass'[o] = cass[o] /\ serial'[o] = serial[o] /\ parent'[o] = parent[o]
+        /\ \A i \in 1..Len(act'.ids) : act'.ids[i][1] = act'.x => parent'[act'.ids[i][2]] = 0
+
+\* independence: an assignment / grid change / cache write on one object shows on no other object
+OnlyTargetChangesStep ==
+    act'.n \in {"Assign", "AssignRO", "SetGrid", "SetCache"} =>
+        \A o \in live \ {act'.o} : val'[o] = val[o] /\ rest'[o] = rest[o] /\ grid'[o] = grid[o]
+                                    /\ cache'[o] = cache[o] /\ mcache'[o] = mcache[o] /\ cass'[o] = cass[o]
+
+\* a deep copy (and, PickleSerial = "fresh", an unpickled copy) gets serial numbers nobody holds
+SerialFreshStep ==
+    act'.n = "DeepCopy" =>
+        \A i \in 1..Len(act'.ids) : serial'[act'.ids[i][2]] \notin {serial[o] : o \in live} /\ serial'[act'.ids[i][2]] >= nextSerial
+
+\* read-only: values of a read-only object never change again, whatever is called; never writeable again
+ReadOnlyRefusesStep == \A o \in live : ro[o] => val'[o] = val[o] /\ rest'[o] = rest[o]
+ReadOnlyForeverStep == \A o \in live : ro[o] => ro'[o]
+RefusalsChangeNoValueStep == err' # "" => val' = val /\ rest' = rest /\ grid' = grid /\ cache' = cache /\ mcache' = mcache
+                                         /\ cass' = cass /\ UNCHANGED <<tree, frames, ro, svars>>
+
+StepProps == {"ExitRestores", "ExitRestoresGrid", "EnterKeepsValues", "CopyEqual", "OnlyTargetChanges",
+              "SerialFresh", "ReadOnlyRefuses", "ReadOnlyForever", "RefusalsChangeNoValue"}
+Violated ==
+    {n \in StepProps :
+        \/ n = "ExitRestores" /\ ~ExitRestoresStep
+        \/ n = "ExitRestoresGrid" /\ ~ExitRestoresGridStep
+        \/ n = "EnterKeepsValues" /\ ~EnterKeepsValuesStep
+        \/ n = "CopyEqual" /\ ~CopyEqualStep
+        \/ n = "OnlyTargetChanges" /\ ~OnlyTargetChangesStep
+        \/ n = "SerialFresh" /\ ~SerialFreshStep
+        \/ n = "ReadOnlyRefuses" /\ ~ReadOnlyRefusesStep
+        \/ n = "ReadOnlyForever" /\ ~ReadOnlyForeverStep
+        \/ n = "RefusalsChangeNoValue" /\ ~RefusalsChangeNoValueStep}
+Rec == bad' = Violated
+
 (* ---------- scopes ---------- *)
 EnterK(r, K) ==
     /\ "Enter" \in Acts /\ r \in live /\ Len(frames) < MaxDepth
     /\ \A o \in Under(r) : ~ro[o]
-    /\ LET U == Under(r)
-           C == {cls[o] : o \in U}
-       IN /\ frames' = Append(frames, [root |-> r, keep |-> K, sval |-> val, srest |-> rest,
+    /\ \E U \in {Under(r)} : \E C \in {{cls[o] : o \in Under(r)}} :   \* (singleton \E: evaluated once)
+          /\ frames' = Append(frames, [root |-> r, keep |-> K, sval |-> val, srest |-> rest,
                                        scache |-> cache, smcache |-> mcache, sgrid |-> grid])
           /\ cbak' = [o \in Node |-> IF o \in U THEN <<[val |-> val[o], rest |-> rest[o], ass |-> cass[o]]>> \o cbak[o]
                                      ELSE cbak[o]]
@@ -132,6 +190,7 @@ EnterK(r, K) ==
           /\ dbak' = [c \in Classes |-> IF c \in C THEN [p \in Par |-> <<dass[c][p]>> \o dbak[c][p]] ELSE dbak[c]]
     /\ UNCHANGED <<tree, val, rest, dass, grid, ro, svars>>
     /\ Ok([n |-> "Enter", r |-> r, keep |-> K])
+    /\ Rec
 
 Enter(r, K) == K \in Keeps /\ EnterK(r, K)
 
@@ -141,20 +200,17 @@ DiffNow(o, K)  == {p \in KeptNow(o, K) : val[o][p] # Head(cbak[o]).val[p]}
 
 Exit ==
     /\ "Exit" \in Acts /\ frames # <<>>
-    /\ LET F == frames[Len(frames)]
-           r == F.root
-           K == F.keep
-           U == Under(r)
-           C == {cls[o] : o \in U}
-       IN /\ frames' = SubSeq(frames, 1, Len(frames) - 1)
-          /\ val'  = [o \in Node |-> IF o \in U THEN [p \in Par |-> IF p \in DiffNow(o, K) THEN val[o][p] ELSE Head(cbak[o]).val[p]]
+    /\ \E F \in {frames[Len(frames)]} : \E U \in {Under(frames[Len(frames)].root)} :
+       \E C \in {{cls[o] : o \in U}} : \E diff \in {[o \in U |-> DiffNow(o, F.keep)]} :
+          /\ frames' = SubSeq(frames, 1, Len(frames) - 1)
+          /\ val'  = [o \in Node |-> IF o \in U THEN [p \in Par |-> IF p \in diff[o] THEN val[o][p] ELSE Head(cbak[o]).val[p]]
                                      ELSE val[o]]
           /\ rest' = [o \in Node |-> IF o \in U THEN Head(cbak[o]).rest ELSE rest[o]]
-          /\ cass' = [o \in Node |-> IF o \in U THEN (IF DiffNow(o, K) # {} THEN ALL ELSE Head(cbak[o]).ass) ELSE cass[o]]
+          /\ cass' = [o \in Node |-> IF o \in U THEN (IF diff[o] # {} THEN ALL ELSE Head(cbak[o]).ass) ELSE cass[o]]
           /\ cbak' = [o \in Node |-> IF o \in U THEN Tail(cbak[o]) ELSE cbak[o]]
           /\ dass' = [c \in Classes |-> IF c \in C
-                        THEN [p \in Par |-> IF \E o \in U : cls[o] = c /\ p \in DiffNow(o, K) THEN ALL
-                                            ELSE IF <<c, p>> \in K THEN dass[c][p] ELSE Head(dbak[c][p])]
+                        THEN [p \in Par |-> IF \E o \in U : cls[o] = c /\ p \in diff[o] THEN ALL
+                                            ELSE IF <<c, p>> \in F.keep THEN dass[c][p] ELSE Head(dbak[c][p])]
                         ELSE dass[c]]
           /\ dbak' = [c \in Classes |-> IF c \in C THEN [p \in Par |-> Tail(dbak[c][p])] ELSE dbak[c]]
           /\ cache' = [o \in Node |-> IF o \in U THEN Head(cachebak[o]) ELSE cache[o]]
@@ -163,8 +219,9 @@ Exit ==
           /\ mcachebak' = [o \in Node |-> IF o \in U /\ HasMat(o) THEN Tail(mcachebak[o]) ELSE mcachebak[o]]
           /\ grid' = [o \in Node |-> IF o \in U /\ HasGrid(o) THEN Head(gbak[o]) ELSE grid[o]]
           /\ gbak' = [o \in Node |-> IF o \in U /\ HasGrid(o) /\ GridSlot = "stack" THEN Tail(gbak[o]) ELSE gbak[o]]
-          /\ Ok([n |-> "Exit", r |-> r, keep |-> K])
+          /\ Ok([n |-> "Exit", r |-> F.root, keep |-> F.keep])
     /\ UNCHANGED <<tree, ro, svars>>
+    /\ Rec
 
 (* ---------- assignments ---------- *)
 AssignV(o, p, v) ==
@@ -174,48 +231,55 @@ AssignV(o, p, v) ==
     /\ dass' = [dass EXCEPT ![cls[o]][p] = ALL]
     /\ UNCHANGED <<tree, rest, cbak, dbak, cvars, gvars, frames, ro, svars>>
     /\ Ok([n |-> "Assign", o |-> o, p |-> p, v |-> v])
+    /\ Rec
 Assign(o, p, v) == v \in Val /\ AssignV(o, p, v)
 
 AssignROV(o, p, v) ==
     /\ "AssignRO" \in Acts /\ o \in live /\ ro[o] /\ p \in ParOf[cls[o]]
-    /\ dass' = IF <<cls[o], p>> \in InPlace THEN dass ELSE [dass EXCEPT ![cls[o]][p] = ALL]
-    /\ UNCHANGED <<tree, val, rest, cass, cbak, dbak, cvars, gvars, frames, ro, svars>>
+    /\ UNCHANGED vars
     /\ Refused("RuntimeError", [n |-> "AssignRO", o |-> o, p |-> p, v |-> v])
+    /\ Rec
 AssignRO(o, p, v) == v \in Val /\ AssignROV(o, p, v)
 
 \* trace validation only: a mutator with side effects confined to the objects in T (all writeable)
-Havoc(o, T, nval, nrest, ncass) ==
+Havoc(o, T, nval, nrest, ncass, ncache, nmcache) ==
     /\ o \in T /\ T \subseteq live /\ \A x \in T : ~ro[x]
     /\ val'  = [x \in Node |-> IF x \in T THEN nval[x] ELSE val[x]]
     /\ rest' = [x \in Node |-> IF x \in T THEN nrest[x] ELSE rest[x]]
     /\ cass' = [x \in Node |-> IF x \in T THEN ncass[x] ELSE cass[x]]
-    /\ UNCHANGED <<tree, cbak, dass, dbak, cvars, gvars, frames, ro, svars>>
+    /\ cache'  = [x \in Node |-> IF x \in T THEN ncache[x] ELSE cache[x]]      \* mutators may drop caches
+    /\ mcache' = [x \in Node |-> IF x \in T THEN nmcache[x] ELSE mcache[x]]
+    /\ UNCHANGED <<tree, cbak, dass, dbak, cachebak, mcachebak, gvars, frames, ro, svars>>
     /\ Ok([n |-> "Havoc", o |-> o])
+    /\ Rec
 
 (* ---------- caches and grids ---------- *)
-SetCache(o, w) ==
+SetCacheV(o, w, tag) ==
     /\ "SetCache" \in Acts /\ o \in live /\ w \in {"obj", "mat"} /\ (w = "mat" => HasMat(o))
-    /\ LET tag == 1 + Covering(o) IN
-       /\ (IF w = "obj" THEN cache[o] ELSE mcache[o]) # tag
-       /\ cache'  = IF w = "obj" THEN [cache EXCEPT ![o] = tag] ELSE cache
-       /\ mcache' = IF w = "mat" THEN [mcache EXCEPT ![o] = tag] ELSE mcache
-       /\ Ok([n |-> "SetCache", o |-> o, w |-> w, tag |-> tag])
+    /\ cache'  = IF w = "obj" THEN [cache EXCEPT ![o] = tag] ELSE cache
+    /\ mcache' = IF w = "mat" THEN [mcache EXCEPT ![o] = tag] ELSE mcache
+    /\ Ok([n |-> "SetCache", o |-> o, w |-> w, tag |-> tag])
     /\ UNCHANGED <<tree, pvars, cachebak, mcachebak, gvars, frames, ro, svars>>
+    /\ Rec
+\* model checking: the cached value is tagged with the nesting level it was computed at
+SetCache(o, w) ==
+    /\ o \in live
+    /\ \E tag \in {1 + Covering(o)} : (IF w = "obj" THEN cache[o] ELSE mcache[o]) # tag /\ SetCacheV(o, w, tag)
 
 SetGridV(o, g) ==
-    /\ "SetGrid" \in Acts /\ o \in live /\ HasGrid(o) /\ ~ro[o] /\ g # grid[o]
+    /\ "SetGrid" \in Acts /\ o \in live /\ HasGrid(o) /\ ~ro[o]
     /\ grid' = [grid EXCEPT ![o] = g]
     /\ UNCHANGED <<tree, pvars, cvars, gbak, frames, ro, svars>>
     /\ Ok([n |-> "SetGrid", o |-> o, g |-> g])
-SetGrid(o, g) == g \in 0..(NGrid - 1) /\ SetGridV(o, g)
+    /\ Rec
+SetGrid(o, g) == g \in 0..(NGrid - 1) /\ o \in live /\ g # grid[o] /\ SetGridV(o, g)
 
 (* ---------- copies ---------- *)
 FreeIds == Node \ live
 Copy(o, how) ==
     /\ how \in Acts /\ o \in live /\ Cardinality(Under(o)) <= Cardinality(FreeIds)
-    /\ LET src  == SortedSeq(Under(o))
-           free == SortedSeq(FreeIds)
-           k    == Len(src)
+    /\ \E src \in {SortedSeq(Under(o))} : \E free \in {SortedSeq(FreeIds)} :
+       LET k    == Len(src)
            new  == {free[i] : i \in 1..k}
            ix(x) == CHOOSE i \in 1..k : src[i] = x
            to(x) == free[ix(x)]
@@ -225,7 +289,7 @@ Copy(o, how) ==
           /\ cls'    = [y \in Node |-> IF y \in new THEN cls[from(y)] ELSE cls[y]]
           /\ val'    = [y \in Node |-> IF y \in new THEN val[from(y)] ELSE val[y]]
           /\ rest'   = [y \in Node |-> IF y \in new THEN rest[from(y)] ELSE rest[y]]
-          /\ cass'   = [y \in Node |-> IF y \in new THEN (IF how = "DeepCopy" THEN NEVER ELSE cass[from(y)]) ELSE cass[y]]
+          /\ cass'   = [y \in Node |-> IF y \in new THEN (IF how = "DeepCopy" THEN ALL ELSE cass[from(y)]) ELSE cass[y]]
           /\ cache'  = [y \in Node |-> IF y \in new THEN cache[from(y)] ELSE cache[y]]
           /\ mcache' = [y \in Node |-> IF y \in new THEN mcache[from(y)] ELSE mcache[y]]
           /\ grid'   = [y \in Node |-> IF y \in new THEN grid[from(y)] ELSE grid[y]]
@@ -236,6 +300,7 @@ Copy(o, how) ==
           /\ nextSerial' = nextSerial + k
           /\ Ok([n |-> how, x |-> o, ids |-> [i \in 1..k |-> <<src[i], free[i]>>]])
     /\ UNCHANGED <<cbak, dass, dbak, cachebak, mcachebak, gbak, frames, ro>>
+    /\ Rec
 
 (* ---------- read-only ---------- *)
 MakeReadOnly(r) ==
@@ -244,6 +309,7 @@ MakeReadOnly(r) ==
     /\ ro' = [o \in Node |-> ro[o] \/ o \in Under(r)]
     /\ UNCHANGED <<tree, pvars, cvars, gvars, frames, svars>>
     /\ Ok([n |-> "MakeReadOnly", r |-> r])
+    /\ Rec
 
 (* ---------- initial state ---------- *)
 InitWith(p0, c0) ==
@@ -259,10 +325,10 @@ InitWith(p0, c0) ==
     /\ grid = [o \in Node |-> 0] /\ gbak = [o \in Node |-> <<>>]
     /\ frames = <<>> /\ ro = [o \in Node |-> FALSE]
     /\ serial = [o \in Node |-> IF o <= n0 THEN o ELSE 0] /\ nextSerial = n0 + 1
-    /\ err = "" /\ act = [n |-> "Init"]
+    /\ err = "" /\ act = [n |-> "Init"] /\ bad = {}
 Init == InitWith(Parent0, Cls0)
 
-Next ==
+Step ==
     \/ \E r \in Node : \E K \in Keeps : Enter(r, K)
     \/ Exit
     \/ \E o \in Node : \E p \in Par : \E v \in Val : Assign(o, p, v) \/ AssignRO(o, p, v)
@@ -270,8 +336,6 @@ Next ==
     \/ \E o \in Node : \E g \in 0..(NGrid - 1) : SetGrid(o, g)
     \/ \E o \in Node : Copy(o, "DeepCopy") \/ Copy(o, "Pickle")
     \/ \E r \in Node : MakeReadOnly(r)
-
-Spec == Init /\ [][Next]_allvars
 
 (* =====================================  PROPERTIES  ===================================== *)
 TypeOK ==
@@ -281,28 +345,26 @@ TypeOK ==
     /\ \A o \in Node \ live : cbak[o] = <<>> /\ ~ro[o]
 
 \* mechanism depth = number of open scopes that cover the object (all kinds of backup, except the single grid slot)
+\* (\A x \in {e} : ... binds e once; TLC re-evaluates LET definitions at every use)
 StacksAligned ==
-    /\ \A o \in live : Len(cbak[o]) = Covering(o) /\ Len(cachebak[o]) = Covering(o)
-    /\ \A o \in live : HasMat(o) => Len(mcachebak[o]) = Covering(o)
-    /\ \A o \in live : HasGrid(o) /\ GridSlot = "stack" => Len(gbak[o]) = Covering(o)
+    \A o \in live : \A k \in {Covering(o)} :
+        /\ Len(cbak[o]) = k /\ Len(cachebak[o]) = k
+        /\ HasMat(o) => Len(mcachebak[o]) = k
+        /\ HasGrid(o) /\ GridSlot = "stack" => Len(gbak[o]) = k
 
 \* LIFO / "the backup contains the outer backup": the j-th covering scope (outermost first) is backed by the
 \* (k-j+1)-th entry of the object's stack and that entry is exactly what the scope saw when it was opened
 BackupsAreSnapshots ==
-    \A o \in live :
-        LET ci == CoverIdx(o)
-            k  == Len(ci)
-        IN \A j \in 1..k :
-              LET F == frames[ci[j]] IN
+    \A o \in live : \A ci \in {CoverIdx(o)} : \A k \in {Len(ci)} :
+        \A j \in 1..k : \A F \in {frames[ci[j]]} :
               /\ k - j + 1 <= Len(cbak[o]) => /\ cbak[o][k - j + 1].val = F.sval[o]
                                               /\ cbak[o][k - j + 1].rest = F.srest[o]
               /\ k - j + 1 <= Len(cachebak[o]) => cachebak[o][k - j + 1] = F.scache[o]
               /\ HasMat(o) /\ k - j + 1 <= Len(mcachebak[o]) => mcachebak[o][k - j + 1] = F.smcache[o]
 GridBackupsAreSnapshots ==
     \A o \in live : HasGrid(o) =>
-        LET ci == CoverIdx(o)
-            k  == Len(ci)
-        IN \A j \in 1..k : k - j + 1 <= Len(gbak[o]) /\ gbak[o][k - j + 1] = frames[ci[j]].sgrid[o]
+        \A ci \in {CoverIdx(o)} : \A k \in {Len(ci)} :
+            \A j \in 1..k : k - j + 1 <= Len(gbak[o]) /\ gbak[o][k - j + 1] = frames[ci[j]].sgrid[o]
 
 \* the `assigned & SINCE_BACKUP` shortcut is sound: a collection whose values differ from its innermost backup
 \* has the bit set (so a kept value is never thrown away)
@@ -312,62 +374,23 @@ GateSound ==
 \* a cached value that is present was computed at a nesting level that is still open around the object
 \* (originals only: a copy made inside a scope legitimately carries the source's cache with it)
 CacheNoLeak ==
-    \A o \in live : o <= NOrig => cache[o] <= 1 + Covering(o) /\ mcache[o] <= 1 + Covering(o)
+    \A o \in live : o <= NOrig => \A k \in {Covering(o)} : cache[o] <= 1 + k /\ mcache[o] <= 1 + k
 
 SerialsUnique == \A a, b \in live : a # b => serial[a] # serial[b]
 SerialsBelowNext == \A a \in live : serial[a] < nextSerial
 
-\* ---- step properties ----
-\* Exit: every value under the root equals the snapshot of the scope being closed, except the kept parameters,
-\* which retain their current value; caches and grids equal the snapshot; nothing outside the scope changes
-ExitRestoresStep ==
-    act'.n = "Exit" =>
-        LET F == frames[Len(frames)]
-            U == Under(F.root)
-        IN /\ \A o \in U : \A p \in Par : val'[o][p] = IF <<cls[o], p>> \in F.keep THEN val[o][p] ELSE F.sval[o][p]
-           /\ \A o \in U : rest'[o] = F.srest[o] /\ cache'[o] = F.scache[o] /\ mcache'[o] = F.smcache[o]
-           /\ \A o \in live \ U : val'[o] = val[o] /\ rest'[o] = rest[o] /\ cache'[o] = cache[o]
-                                  /\ mcache'[o] = mcache[o] /\ grid'[o] = grid[o]
-ExitRestores == [][ExitRestoresStep]_allvars
-ExitRestoresGridStep ==
-    act'.n = "Exit" => LET F == frames[Len(frames)] IN \A o \in Under(F.root) : grid'[o] = F.sgrid[o]
-ExitRestoresGrid == [][ExitRestoresGridStep]_allvars
+ExitRestores          == "ExitRestores" \notin bad
+ExitRestoresGrid      == "ExitRestoresGrid" \notin bad
+EnterKeepsValues      == "EnterKeepsValues" \notin bad
+CopyEqual             == "CopyEqual" \notin bad
+OnlyTargetChanges     == "OnlyTargetChanges" \notin bad
+SerialFresh           == "SerialFresh" \notin bad
+ReadOnlyRefuses       == "ReadOnlyRefuses" \notin bad
+ReadOnlyForever       == "ReadOnlyForever" \notin bad
+RefusalsChangeNoValue == "RefusalsChangeNoValue" \notin bad
 
-\* Enter changes no value (and empties the caches inside the scope)
-EnterKeepsValues == [][act'.n = "Enter" => val' = val /\ rest' = rest /\ grid' = grid
-                                           /\ \A o \in Under(act'.r) : cache'[o] = 0 /\ mcache'[o] = 0]_allvars
-
-\* copies: equal to the source at the moment of the copy, source untouched, copy root detached
-CopyEqualStep ==
-    act'.n \in {"DeepCopy", "Pickle"} =>
-        /\ \A i \in 1..Len(act'.ids) :
-              LET s == act'.ids[i][1]
-                  d == act'.ids[i][2]
-              IN val'[d] = val[s] /\ rest'[d] = rest[s] /\ grid'[d] = grid[s] /\ cls'[d] = cls[s] /\ ~ro'[d]
-        /\ \A o \in live : val'[o] = val[o] /\ rest'[o] = rest[o] /\ grid'[o] = grid[o] /\ cache'[o] = cache[o]
-                           /\ cass'[o] = cass[o] /\ serial'[o] = serial[o] /\ parent'[o] = parent[o]
-        /\ \A i \in 1..Len(act'.ids) : act'.ids[i][1] = act'.x => parent'[act'.ids[i][2]] = 0
-CopyEqual == [][CopyEqualStep]_allvars
-
-\* independence: an assignment / grid change / cache write on one object shows on no other object
-OnlyTargetChangesStep ==
-    act'.n \in {"Assign", "AssignRO", "SetGrid", "SetCache"} =>
-        \A o \in live \ {act'.o} : val'[o] = val[o] /\ rest'[o] = rest[o] /\ grid'[o] = grid[o]
-                                    /\ cache'[o] = cache[o] /\ mcache'[o] = mcache[o] /\ cass'[o] = cass[o]
-OnlyTargetChanges == [][OnlyTargetChangesStep]_allvars
-
-\* a deep copy (and, PickleSerial = "fresh", an unpickled copy) gets serial numbers nobody holds
-SerialFreshStep ==
-    act'.n = "DeepCopy" =>
-        \A i \in 1..Len(act'.ids) : serial'[act'.ids[i][2]] \notin {serial[o] : o \in live} /\ serial'[act'.ids[i][2]] >= nextSerial
-SerialFresh == [][SerialFreshStep]_allvars
-
-\* read-only: values of a read-only object never change again, whatever is called; never writeable again
-ReadOnlyRefusesStep == \A o \in live : ro[o] => val'[o] = val[o] /\ rest'[o] = rest[o]
-ReadOnlyRefuses == [][ReadOnlyRefusesStep]_allvars
-ReadOnlyForever == [][\A o \in live : ro[o] => ro'[o]]_allvars
-RefusalsChangeNoValue == [][err' # "" => val' = val /\ rest' = rest /\ grid' = grid /\ cache' = cache /\ mcache' = mcache
-                                         /\ cass' = cass /\ UNCHANGED <<tree, frames, ro, svars>>]_allvars
+Next == Step
+Spec == Init /\ [][Next]_allvars
 
 (* ---------- observation ---------- *)
 SameSerialAs(o) == CHOOSE m \in live : serial[m] = serial[o] /\ \A x \in live : serial[x] = serial[o] => m <= x
